@@ -210,4 +210,167 @@ class FigureOnly(Contract):
                 "C14.callers_footnote_component_is_not_written": z3.BoolVal(at is c.v["foot_as_table"] or (z3.is_expr(at) and at.eq(to_z3(c.v["foot_as_table"]))))}
 
 
-UNITS = [FigureOnly()]
+
+class EncodeFigure(Contract):
+    """services/figure_service.py::RTFFigureService.encode_figure (a figure placed before / after a table): figure i of the given path
+    list is encoded with its own bytes and format and the i-th width / height, a page break stands exactly between consecutive figures
+    and one closing paragraph follows the last figure; '' without figures (C16)."""
+    target = "services/figure_service.py::RTFFigureService.encode_figure"
+    serves = ["C16"]
+    models = [StrModel()]
+    variants = ["figures", "no_component", "no_paths"]
+
+    def setup(self, c):
+        if c.variant == "no_component":
+            c.bind("rtf_figure", None)
+            return
+        if c.variant == "no_paths":
+            c.bind("rtf_figure", c.alloc(RecObj("RTFFigure", {"figures": None}, fresh=False)))
+            return
+        NF = z3.Int(fresh_name("n_figures"))
+        c.requires("at_least_one_figure", NF >= 1)
+        paths = c.alloc(ListObj(length=NF, get=lambda k: z3.Const(fresh_name("path"), StrSort), fresh=False))
+        fw, fh = c.fresh("fig_width", T.List(T.Real)), c.fresh("fig_height", T.List(T.Real))
+        align = c.fresh("fig_align", T.Str)
+        fig = c.alloc(RecObj("RTFFigure", {"figures": paths, "fig_width": fw, "fig_height": fh, "fig_align": align}, fresh=False))
+        c.bind("rtf_figure", fig)
+        c.v.update(NF=NF, paths=paths, fw=fw, fh=fh, align=align)
+        c.ghost("log", ())
+
+    @property
+    def handlers(self):
+        def out_append(I, st, args, kwargs, node):
+            x = norm_str(args[0])
+            tag = x.strip("\x01") if isinstance(x, str) and x.startswith("\x01") else ({"\\par ": "PAR", "\\page ": "PAGE"}.get(x, f"LIT:{x!r}") if isinstance(x, str) else "OTHER")
+            st.ghost["log"] = tuple(st.ghost.get("log", ())) + (tag,)
+            return None
+        return {"rtf_output.append": out_append}
+
+    @property
+    def summaries(self):
+        v = lambda: self._v
+
+        def read_figure(I, st, args, kwargs, node):
+            site = getattr(node, "lineno", None)
+            I.ctx.assume_lib("rtf_read_figure(paths): one (bytes, format) per path, in the given order (FileNotFoundError / ValueError otherwise)")
+            I.oblige(st, f"C16.reads_this_components_figure_paths@L{site}", z3.BoolVal(isinstance(args[0], Ref) and args[0].oid == v()["paths"].oid), "post", site)
+            figs = st.alloc(ListObj(length=v()["NF"], get=lambda k: FIGDATA(to_z3(k)), fresh=True))
+            fmts = st.alloc(ListObj(length=v()["NF"], get=lambda k: FIGFMT(to_z3(k)), fresh=True))
+            return (figs, fmts)
+
+        def dimension(I, st, args, kwargs, node):
+            vv = v()
+            site = getattr(node, "lineno", None)
+            lst, k = args[-2], args[-1]
+            which = 0 if (isinstance(lst, Ref) and lst.oid == vv["fw"].oid) else (1 if (isinstance(lst, Ref) and lst.oid == vv["fh"].oid) else None)
+            I.oblige(st, f"C16.size_looked_up_in_this_components_size_list@L{site}", z3.BoolVal(which is not None), "post", site)
+            I.oblige(st, f"C16.size_looked_up_at_the_figures_own_position@L{site}", to_z3(k) == to_z3(st.ghost["__iter_index__"]), "post", site)
+            return DIM(IntVal(which if which is not None else 9), to_z3(k))
+
+        def single_figure(I, st, args, kwargs, node):
+            site = getattr(node, "lineno", None)
+            i = to_z3(st.ghost["__iter_index__"])
+            data, fmt, w, h, al = args[-5], args[-4], args[-3], args[-2], args[-1]
+            I.oblige(st, f"C16.figure_i_is_encoded_with_its_own_bytes_and_format@L{site}", And(to_z3(data) == FIGDATA(i), to_z3(norm_str(fmt)) == FIGFMT(i)), "post", site)
+            I.oblige(st, f"C16.figure_i_uses_the_ith_width_and_height@L{site}", And(to_z3(w) == DIM(IntVal(0), i), to_z3(h) == DIM(IntVal(1), i)), "post", site)
+            I.oblige(st, f"C16.figure_i_uses_the_configured_alignment@L{site}", to_z3(norm_str(al)) == to_z3(v()["align"]), "post", site)
+            return mark("FIGURE")
+        return {"rtf_read_figure": read_figure, "RTFFigureService._get_dimension": dimension, "RTFFigureService._encode_single_figure": single_figure}
+
+    def setup_loops(self, c):
+        self._v = v = c.v
+        self.loops = {}
+        if c.variant != "figures":
+            return
+        NF = v["NF"]
+
+        def ghost_iter(I, st, i):
+            st.ghost["log"] = ()
+
+        def after(I, st, fin):
+            st.ghost["log"] = ()
+
+        def inv(vv):
+            st = vv._state
+            cl = {"range": And(0 <= vv.i, vv.i <= NF)}
+            idx = st.ghost.get("__iter_index__")
+            if idx is None or not z3.is_expr(vv.i) or not z3.simplify(vv.i - 1).eq(z3.simplify(to_z3(idx))):
+                return cl
+            last = (vv.i - 1) == NF - 1
+            tags = list(st.ghost.get("log", ()))
+            cl["C16.each_iteration_appends_one_figure_then_at_most_a_page_break"] = z3.BoolVal(tags in (["FIGURE"], ["FIGURE", "PAGE"]))
+            cl["C16.page_break_exactly_between_consecutive_figures"] = z3.BoolVal("PAGE" in tags) == Not(last)
+            return cl
+        self.loops = {0: LoopSpec(inv=inv, ghost_iter=ghost_iter, after=after, havoc={"rtf_output": (lambda I, st, name, ref: None)})}
+
+    def ensures(self, c, out):
+        if c.variant != "figures":
+            return {"C16.nothing_is_emitted_without_figures": z3.BoolVal(norm_str(out.value) == "")}
+        return {"C16.one_closing_paragraph_after_the_last_figure": z3.BoolVal(tuple(out.state.ghost.get("log", ())) == ("PAR",))}
+
+
+# ---- figure.py::_read_image_data ----------------------------------------------------------------------------------------------------
+from contracts.figures import FILE_BYTES
+
+
+class FileModel:
+    """`with open(...) as f:` - the file object is bound, the body runs, the file is closed on every exit of the block."""
+    assumed = ["open(path, 'rb') as f; f.read(): the bytes stored at that path (whole file, no decoding); the with block closes the file"]
+
+    def with_stmt(self, I, st, s):
+        if len(s.items) != 1:
+            return NotImplemented
+        item = s.items[0]
+        cm = I.eval(st, item.context_expr)
+        if not (isinstance(cm, Ref) and isinstance(st.obj(cm), RecObj) and st.obj(cm).cls == "BinaryFile"):
+            return NotImplemented
+        if item.optional_vars is not None:
+            I.assign(st, item.optional_vars, cm)
+        outs = []
+        for o in I.exec_block(st, s.body):
+            o.state.ghost["closed_files"] = tuple(o.state.ghost.get("closed_files", ())) + (cm.oid,)
+            outs.append(o)
+        return outs
+
+
+class ReadImageData(Contract):
+    """_read_image_data(path): the whole content of the file at `path`, opened for binary reading (C16: the exact bytes)."""
+    target = "figure.py::_read_image_data"
+    serves = ["C16"]
+    models = [FileModel(), StrModel()]
+
+    def setup(self, c):
+        p = z3.Const(fresh_name("path"), StrSort)
+        c.bind("path", ("path", p))
+        c.v.update(p=p)
+        c.ghost("opened", ())
+
+    @property
+    def handlers(self):
+        def h_open(I, st, args, kwargs, node):
+            site = getattr(node, "lineno", None)
+            I.ctx.assume_lib("open(path, 'rb') as f; f.read(): the bytes stored at that path (whole file, no decoding)")
+            tgt = args[0]
+            mode = norm_str(args[1]) if len(args) > 1 else norm_str(kwargs.get("mode", "r"))
+            I.oblige(st, f"C16.opens_the_given_path_for_binary_reading@L{site}",
+                     z3.BoolVal(isinstance(tgt, tuple) and len(tgt) == 2 and tgt[0] == "path" and tgt[1].eq(self._v["p"]) and mode == "rb"), "post", site)
+            st.ghost["opened"] = tuple(st.ghost.get("opened", ())) + (site,)
+            return st.alloc(RecObj("BinaryFile", {"_path": tgt[1] if isinstance(tgt, tuple) else None}, fresh=True))
+
+        def h_read(I, st, args, kwargs, node):
+            site = getattr(node, "lineno", None)
+            I.oblige(st, f"C16.reads_the_whole_file@L{site}", z3.BoolVal(len(args) == 0 and not kwargs), "post", site)
+            f = st.obj(I.lookup(st, "f"))
+            return FILE_BYTES(f.fields["_path"])
+        return {"open": h_open, "f.read": h_read}
+
+    def setup_loops(self, c):
+        self._v = c.v
+        self.loops = {}
+
+    def ensures(self, c, out):
+        return {"C16.returns_the_files_exact_bytes": to_z3(out.value) == FILE_BYTES(c.v["p"]),
+                "opened_once": z3.BoolVal(len(out.state.ghost.get("opened", ())) == 1)}
+
+
+UNITS = [FigureOnly(), EncodeFigure(), ReadImageData()]
